@@ -303,10 +303,10 @@ func TestC15SM(t *testing.T) {
 func TestC02SM(t *testing.T) {
 	runSM(t, smSpec{
 		Name: "TestC02SM", Prop: "C02",
-		Rule: "history of 5-40 generated actions (template edits incl. several in a row and eligibility-changing templates, annotation flips, node add/remove/relabel/taint, pod restarts/failures/duplicates, partial rollouts because reconciles are individually scheduled, controller restarts) over 1-6 nodes and a strategy of the convergent sub-lattice with or without canary, followed by a stabilisation phase (annotations removed, a canary in progress resolved by validation, failure or waiting, API calls succeed, kubelet makes pods Ready, fair rounds in generated orders); oracle: within Rmax rounds a round issues no pod create/delete, every node eligible for the live template holds exactly one Ready pod with the live hash, no other daemon pod remains, the active set matches spec.template, and three further rounds issue nothing; non-trivial = a template change or node churn happened and stabilisation needed at least one pod create/delete; distinct by action trace",
+		Rule: "history of 5-40 generated actions (template edits incl. several in a row and eligibility-changing templates, annotation flips, node add/remove/relabel/taint, resource-override annotations on nodes (own, foreign, malformed), ExtendedDaemonsetSettings appearing/changing/disappearing, pod restarts/failures/duplicates, partial rollouts because reconciles are individually scheduled, controller restarts) over 1-6 nodes and a strategy of the convergent sub-lattice with or without canary, followed by a stabilisation phase (annotations removed, a canary in progress resolved by validation, failure or waiting, API calls succeed, kubelet makes pods Ready, fair rounds in generated orders); oracle: within Rmax rounds a round issues no pod create/delete, every node eligible for the live template holds exactly one Ready pod with the live hash, no other daemon pod remains, the active set matches spec.template, and three further rounds issue nothing; non-trivial = a template change or node churn happened and stabilisation needed at least one pod create/delete; distinct by action trace",
 		Cfg: WorldCfg{MinNodes: 1, MaxNodes: 6, Letters: "ABCDG", Strategy: gen.StrategyOpts{Canary: 1, FastRamp: true}, Forks: 0, Affinity: 2, Warmup: 5, StartEdit: 1,
 			Monitors: mon.Of("no-panic"),
-			Weights:  weights(defaultWeights(), map[string]int{"pod-dup": 1, "edit-template": 5, "round": 5, "canary-valid": 1})},
+			Weights:  weights(defaultWeights(), map[string]int{"pod-dup": 1, "edit-template": 5, "round": 5, "canary-valid": 1, "node-annotate": 2, "setting-toggle": 2})},
 		MinSteps: 5, MaxSteps: 40,
 		After:    func(w *World) { w.stabilise("converge") },
 		NonTrivial: func(w *World) bool {
